@@ -32,3 +32,22 @@ Theorem C10_view_refuted :
                 exists r, In r rs /\ observe s1 r <> observe s2 r.
 Proof. exact view_is_overwritten. Qed.
 Print Assumptions C10_view_refuted.
+
+(* nested users of one pool (Example() of nested objects and arrays): as long as every Put gives back a buffer the
+   caller holds - one Put per Get - no Get ever hands out a buffer somebody else is still writing into *)
+Theorem C10_get_exclusive : forall t c, disciplined o0 t = true ->
+  forall i, snd (ostep (orun o0 t) (EGet c)) = Some i -> ~ In i (oheld (orun o0 t)).
+Proof. exact get_exclusive. Qed.
+Print Assumptions C10_get_exclusive.
+
+Theorem C10_double_put_refuted : exists t c i, snd (ostep (orun o0 t) (EGet c)) = Some i /\ In i (oheld (orun o0 t)).
+Proof. exact double_put_shares. Qed.
+Print Assumptions C10_double_put_refuted.
+
+(* every pool-using function of the repository contains exactly one Get and one Put (deferred: C10_sites_copy), and
+   no other function touches a pool except the BufferPool wrapper *)
+Theorem C10_sites_balanced : (forall b, In b pool_balance -> balance_ok b = true) /\
+  map (fun s => fst (fst (fst s))) pool_sites = map (fun b => fst (fst b)) pool_balance /\
+  pool_calls_elsewhere = ["internal/sync/pool.go|Get|Get"; "internal/sync/pool.go|Put|Put"]%string.
+Proof. exact (conj sites_balanced (conj sites_same no_pool_calls_elsewhere)). Qed.
+Print Assumptions C10_sites_balanced.
